@@ -234,5 +234,67 @@ class PitchLists(Stream):
         return f"(chord_scale {cc}, chord_pitches {cc}, chord_extension_pitches {cc})"
 
 
+class SharedChord(Stream):
+    """the pitch of a note is a function of (chord, note): asking one Chord object for several notes in a row - notes that agree in
+    everything Note.__eq__ looks at but differ in accidental, or differ in one field only - gives what a fresh chord gives for each"""
+    name = "to_pitch_shared_chord"
+    checker = None
+    pair = "property oracle: [c.to_pitch(n) for n in notes] on one Chord object vs a fresh Chord per note vs the documented pitch"
+    quick, thorough = 800, 15000
+
+    def gen(self, rng, n):
+        for _ in range(n):
+            c = rand_chord(rng)
+            c.pop("ton_none", None)
+            base = rand_note(rng)
+            notes = [base]
+            for _ in range(rng.randrange(1, 5)):
+                m = dict(rng.choice(notes))
+                f = rng.choice(["acc", "acc", "mode", "oct", "val", "kind", "same"])
+                if f == "acc" and m["kind"] == "s":
+                    m["acc"] = rng.choice([a for a in ACCS if a != m.get("acc")] + [None])
+                    if m["acc"] is None: m.pop("acc")
+                elif f == "mode" and m["kind"] in "sh":
+                    m["mode"] = rng.choice(MODES)
+                elif f == "oct":
+                    m["oct"] = m["oct"] + rng.choice([-1, 1])
+                elif f == "val":
+                    m["val"] = m["val"] + 1
+                elif f == "kind":
+                    m = dict(rand_note(rng), val=m["val"], oct=m["oct"])
+                notes.append(m)
+            yield {"chord": c, "notes": notes}
+
+    def impl(self, case):
+        def f():
+            shared = mlang.mk_chord(case["chord"])
+            got, fresh = [], []
+            for n in case["notes"]:
+                for lst, ch in ((got, shared), (fresh, mlang.mk_chord(case["chord"]))):
+                    r = mlang.guarded(lambda: ch.to_pitch(mlang.mk_note(n)))
+                    lst.append(r if mlang.is_exc(r) else (None if r is None else int(r)))
+            return {"shared": got, "fresh": fresh}
+        return f()
+
+    def spec(self, case, r):
+        for i, n in enumerate(case["notes"]):
+            a, b = r["shared"][i], r["fresh"][i]
+            if mlang.is_exc(a) != mlang.is_exc(b) or (not mlang.is_exc(a) and a != b):
+                return {"sig": "pitch-depends-on-earlier-calls", "msg": f"note {i} of {case['notes']}: {a} on the used chord object, {b} on a fresh one"}
+            want = spec_pitch(case["chord"], n)
+            if want not in (None, "raises") and not mlang.is_exc(a) and a != want:
+                return {"sig": "pitch-shared:" + n["kind"], "msg": f"note {i} of {case['notes']}: documented pitch {want}, library gives {a}"}
+        return None
+
+    def nontrivial(self, case, r):
+        return len({(n["kind"], n["val"], n["oct"], n.get("mode")) for n in case["notes"]}) < len(case["notes"])
+
+    def shrink(self, case):
+        ns = case["notes"]
+        if len(ns) > 2:
+            for i in range(len(ns)):
+                yield dict(case, notes=ns[:i] + ns[i + 1:])
+
+
 def streams():
-    return [ToPitch(), PitchLists()]
+    return [ToPitch(), PitchLists(), SharedChord()]
